@@ -5,6 +5,24 @@ import Mhd.Proofs.ConnSMBody
 namespace Mhd.ConnSM
 open Mhd.Gen.ConnState Mhd.Protocol
 
+/-- a state change among the low states (≤ HEADERS_PROCESSED) keeps the invariant -/
+theorem Inv.restate {σ} {c c2 : Conn σ} (h : Inv c)
+    (e3 : c2.inCleanup = c.inCleanup) (e5 : c2.clientAware = c.clientAware) (e6 : c2.ctx = c.ctx)
+    (e7 : c2.upOff = c.upOff) (e8 : c2.response = c.response) (e9 : c2.stopWithError = c.stopWithError)
+    (e10 : c2.discard = c.discard)
+    (hlow : c.state.toNat ≤ 5) (hlow2 : c2.state.toNat ≤ 5)
+    (hnew : c2.state.toNat ≤ 1 → c.clientAware = false) : Inv c2 := by
+  have hne2 : c2.state ≠ .closed := by intro e; rw [e] at hlow2; simp at hlow2
+  simp only [Inv, e3, e5, e6, e7, e8, e9, e10] at h ⊢
+  obtain ⟨b1, b2, b3, b4, b5, b6, b7, b8, b9, b10⟩ := h
+  refine ⟨?_, ?_, b3, ?_, ?_, ?_, ?_, hnew, b9, b10⟩
+  · intro hr; have := b1 hr; omega
+  · intro hr; have := b2 hr; omega
+  · intro e; exact absurd e hne2
+  · intro ha _; exact b5 ha hlow
+  · intro hi; have := (b6 hi).1; omega
+  · intro x y; omega
+
 /-- a state change that only concerns the connection state, checked against the relation -/
 theorem Rel.restate {σ} {c c2 : Conn σ} {p : PSt} (h : Rel c p)
     (e1 : c2.started = c.started) (e2 : c2.cleaned = c.cleaned) (e3 : c2.inCleanup = c.inCleanup)
@@ -13,46 +31,27 @@ theorem Rel.restate {σ} {c c2 : Conn σ} {p : PSt} (h : Rel c p)
     (e10 : c2.discard = c.discard)
     (hlow : c.state.toNat ≤ 5) (hlow2 : c2.state.toNat ≤ 5)
     (hnew : c2.state.toNat ≤ 1 → c.clientAware = false) : Rel c2 p := by
-  have hne : c.state ≠ .closed := by intro e; rw [e] at hlow; simp at hlow
-  have hne2 : c2.state ≠ .closed := by intro e; rw [e] at hlow2; simp at hlow2
+  have hrou : respOrUpg c2 = respOrUpg c := by
+    have h1 : c.state.toNat ≠ 23 := by omega
+    have h2 : c2.state.toNat ≠ 23 := by omega
+    simp [respOrUpg, e8, h1, h2]
+  have hss : stateSite c2.state = stateSite c.state := by
+    have : c.state.toNat ≤ 6 := by omega
+    have : c2.state.toNat ≤ 6 := by omega
+    simp_all [stateSite]
   cases p with
   | fresh =>
-    simp only [Rel, Inv, e1, e2, e3, e5, e6, e7, e8, e9, e10] at h ⊢
-    obtain ⟨a1, a2, a3, b1, b2, b3, b4, b5, b6, b7, b8⟩ := h
-    refine ⟨a1, a2, a3, ?_, ?_, b3, ?_, ?_, ?_, ?_, hnew⟩
-    · intro hr; have := b1 hr; omega
-    · intro hr; have := b2 hr; omega
-    · intro e; exact absurd e hne2
-    · intro ha _; exact b5 ha hlow
-    · intro hi; exact absurd (b6 hi) hne
-    · intro x y; omega
+    simp only [Rel, e1, e2, e5] at h ⊢
+    exact ⟨h.1, h.2.1, h.2.2.1, h.2.2.2.restate e3 e5 e6 e7 e8 e9 e10 hlow hlow2 hnew⟩
   | closed => simp only [Rel, e1, e2] at h ⊢; exact h
   | bad => exact h
   | idle =>
-    simp only [Rel, Inv, e1, e2, e3, e5, e6, e7, e8, e9, e10, stateSite] at h ⊢
-    obtain ⟨a1, a2, a3, b1, b2, b3, b4, b5, b6, b7, b8⟩ := h
-    refine ⟨a1, a2, a3, ?_, ?_, b3, ?_, ?_, ?_, ?_, hnew⟩
-    · intro hr; have := b1 hr; omega
-    · intro hr; have := b2 hr; omega
-    · intro e; exact absurd e hne2
-    · intro ha _; exact b5 ha hlow
-    · intro hi; exact absurd (b6 hi) hne
-    · intro x y; omega
+    simp only [Rel, e1, e2, e5] at h ⊢
+    exact ⟨h.1, h.2.1, h.2.2.1, h.2.2.2.restate e3 e5 e6 e7 e8 e9 e10 hlow hlow2 hnew⟩
   | req q =>
-    simp only [Rel, Inv, e1, e2, e3, e5, e6, e7, e8, e9, e10, stateSite] at h ⊢
-    obtain ⟨a1, a2, a3, ⟨b1, b2, b3, b4, b5, b6, b7, b8⟩, d1, d2, d3, d4, d5, d6⟩ := h
-    refine ⟨a1, a2, a3, ⟨?_, ?_, b3, ?_, ?_, ?_, ?_, hnew⟩, d1, d2, d3, d4, ?_, ?_⟩
-    · intro hr; have := b1 hr; omega
-    · intro hr; have := b2 hr; omega
-    · intro e; exact absurd e hne2
-    · intro ha _; exact b5 ha hlow
-    · intro hi; exact absurd (b6 hi) hne
-    · intro x y; omega
-    · have : c.state.toNat ≤ 6 := by omega
-      have : c2.state.toNat ≤ 6 := by omega
-      simp_all
-    · intro _; exact Or.inl hlow2
-
+    simp only [Rel, e1, e2, e5, e6, e7, hrou, hss] at h ⊢
+    obtain ⟨a1, a2, a3, hi, d1, d2, d3, d4, d5, d6⟩ := h
+    exact ⟨a1, a2, a3, hi.restate e3 e5 e6 e7 e8 e9 e10 hlow hlow2 hnew, d1, d2, d3, d4, d5, fun _ => Or.inl hlow2⟩
 
 theorem closeConn_frame {σ} (c : Conn σ) (code : Nat) :
     (closeConn c code).1.started = c.started ∧ (closeConn c code).1.cleaned = c.cleaned := by
@@ -75,8 +74,8 @@ theorem connectionReset_frame {σ} (c : Conn σ) (reuse : Bool) :
 /-- closes goals of the form `Rel {c with state := …, …} p` once `c.state` is a known constructor -/
 macro "rel_fin" : tactic =>
   `(tactic| first
-    | (cases ‹PSt› <;> simp_all [Rel, Inv, stateSite]; done)
-    | (cases ‹PSt› <;> simp_all [Rel, Inv, stateSite] <;> grind))
+    | (cases ‹PSt› <;> simp_all [Rel, Inv, respOrUpg, stateSite]; done)
+    | (cases ‹PSt› <;> simp_all [Rel, Inv, respOrUpg, stateSite] <;> grind))
 
 theorem idleCase_eq {σ} (cfg : Cfg) (app : App σ) (env : IdleEnv) (hok : EnvOk cfg env)
     (c : Conn σ) (p : PSt) (h : Rel c p) (hs : c.started = true) (hc : c.cleaned = false)
@@ -142,10 +141,37 @@ theorem idleCase_eq {σ} (cfg : Cfg) (app : App σ) (env : IdleEnv) (hok : EnvOk
       rel_fin
     | some r =>
       simp only [hr] at heq
-      obtain ⟨rfl, rfl, rfl⟩ := heq
-      refine ⟨?_, hs, hc⟩
-      simp only [run_nil]
-      by_cases hb : r.body = true <;> by_cases hcb : r.chunkedBody = true <;> simp only [hb, hcb] <;> rel_fin
+      have hinv : Inv c := by cases p <;> simp_all [Rel, respOrUpg]
+      split at heq
+      · -- upgrade response
+        rename_i hup
+        have haw : c.clientAware = true := by
+          simp only [Inv] at hinv
+          cases hh : c.clientAware
+          · rcases hinv.2.2.2.2.2.2.2.2.2 hh with h0 | h0
+            · simp [hr] at h0
+            · rw [hr] at h0; simp [errResp] at h0; subst h0; simp at hup
+          · rfl
+        split at heq
+        · generalize hce : closeError _ = rr at heq
+          obtain ⟨c2, l2⟩ := rr
+          have := closeError_eq (p := p) hce (by cases p <;> simp_all [Rel, Open, respOrUpg])
+          obtain ⟨rfl, rfl, rfl⟩ := heq
+          obtain ⟨t1, t2, t3, t4⟩ := this
+          refine ⟨?_, t2.1, t2.2.1⟩
+          rw [t1]; exact t2
+        · simp only [dropResp] at heq
+          obtain ⟨rfl, rfl, rfl⟩ := heq
+          refine ⟨?_, hs, hc⟩
+          cases p with
+          | req q =>
+            by_cases hf : r.freeCb = true <;>
+              simp_all [Rel, Inv, respOrUpg, stateSite, Site.rank_le_two]
+          | _ => simp_all [Rel, respOrUpg]
+      · obtain ⟨rfl, rfl, rfl⟩ := heq
+        refine ⟨?_, hs, hc⟩
+        simp only [run_nil]
+        by_cases hb : r.body = true <;> by_cases hcb : r.chunkedBody = true <;> simp only [hb, hcb] <;> rel_fin
   case startReply =>
     clear hte
     simp only [hst] at heq
@@ -265,10 +291,10 @@ theorem idleCase_eq {σ} (cfg : Cfg) (app : App σ) (env : IdleEnv) (hok : EnvOk
       exact h.restate rfl rfl rfl rfl rfl rfl rfl rfl rfl (by simp [hst]) (by simp) (by simp)
   case init =>
     simp only [hst] at heq
-    have hinv : Inv c := by cases p <;> simp_all [Rel]
+    have hinv : Inv c := by cases p <;> simp_all [Rel, respOrUpg]
     simp only [Inv] at hinv
-    have haw : c.clientAware = false := hinv.2.2.2.2.2.2.2 (by simp [hst])
-    have hp : p = .idle := by cases p <;> simp_all [Rel]
+    have haw : c.clientAware = false := hinv.2.2.2.2.2.2.2.1 (by simp [hst])
+    have hp : p = .idle := by cases p <;> simp_all [Rel, respOrUpg]
     subst hp
     have hctx := hinv.2.2.2.2.1 haw (by simp [hst])
     split at heq
@@ -284,7 +310,7 @@ theorem idleCase_eq {σ} (cfg : Cfg) (app : App σ) (env : IdleEnv) (hok : EnvOk
         refine ⟨?_, hs, hc⟩
         simp only [run_cons, run_nil, step_idle_uri]
         clear hte
-        simp_all [Rel, Inv, stateSite]
+        simp_all [Rel, Inv, respOrUpg, stateSite]
       · obtain ⟨rfl, rfl, rfl⟩ := heq
         refine ⟨?_, hs, hc⟩
         simp only [run_nil]
@@ -294,7 +320,7 @@ theorem idleCase_eq {σ} (cfg : Cfg) (app : App σ) (env : IdleEnv) (hok : EnvOk
         obtain ⟨c2, l2⟩ := rr
         obtain ⟨t1, t2, t3, t4⟩ := transmitError_eq cfg env _
           (.req { handlerSeen := false, site := .first, ctx := (app.uriLog c.app).2, nextOff := 0, replied := false, failed := false })
-          (by clear hte hce heq; simp_all [Rel, Inv, stateSite]) hok (by simp) (by simpa using hs) (by simpa using hc) c2 l2 hce
+          (by clear hte hce heq; simp_all [Rel, Inv, respOrUpg, stateSite]) hok (by simp) (by simpa using hs) (by simpa using hc) c2 l2 hce
         obtain ⟨rfl, rfl, rfl⟩ := heq
         refine ⟨?_, t3, t4⟩
         simp only [List.singleton_append, run_cons, step_idle_uri]
@@ -313,10 +339,10 @@ theorem idleCase_eq {σ} (cfg : Cfg) (app : App σ) (env : IdleEnv) (hok : EnvOk
       exact this
   case reqLineReceiving =>
     simp only [hst] at heq
-    have hinv : Inv c := by cases p <;> simp_all [Rel]
+    have hinv : Inv c := by cases p <;> simp_all [Rel, respOrUpg]
     simp only [Inv] at hinv
-    have haw : c.clientAware = false := hinv.2.2.2.2.2.2.2 (by simp [hst])
-    have hp : p = .idle := by cases p <;> simp_all [Rel]
+    have haw : c.clientAware = false := hinv.2.2.2.2.2.2.2.1 (by simp [hst])
+    have hp : p = .idle := by cases p <;> simp_all [Rel, respOrUpg]
     subst hp
     have hctx := hinv.2.2.2.2.1 haw (by simp [hst])
     split at heq
@@ -332,7 +358,7 @@ theorem idleCase_eq {σ} (cfg : Cfg) (app : App σ) (env : IdleEnv) (hok : EnvOk
         refine ⟨?_, hs, hc⟩
         simp only [run_cons, run_nil, step_idle_uri]
         clear hte
-        simp_all [Rel, Inv, stateSite]
+        simp_all [Rel, Inv, respOrUpg, stateSite]
       · obtain ⟨rfl, rfl, rfl⟩ := heq
         refine ⟨?_, hs, hc⟩
         simp only [run_nil]
@@ -342,7 +368,7 @@ theorem idleCase_eq {σ} (cfg : Cfg) (app : App σ) (env : IdleEnv) (hok : EnvOk
         obtain ⟨c2, l2⟩ := rr
         obtain ⟨t1, t2, t3, t4⟩ := transmitError_eq cfg env _
           (.req { handlerSeen := false, site := .first, ctx := (app.uriLog c.app).2, nextOff := 0, replied := false, failed := false })
-          (by clear hte hce heq; simp_all [Rel, Inv, stateSite]) hok (by simp) (by simpa using hs) (by simpa using hc) c2 l2 hce
+          (by clear hte hce heq; simp_all [Rel, Inv, respOrUpg, stateSite]) hok (by simp) (by simpa using hs) (by simpa using hc) c2 l2 hce
         obtain ⟨rfl, rfl, rfl⟩ := heq
         refine ⟨?_, t3, t4⟩
         simp only [List.singleton_append, run_cons, step_idle_uri]
@@ -400,11 +426,40 @@ theorem idleCase_eq {σ} (cfg : Cfg) (app : App σ) (env : IdleEnv) (hok : EnvOk
   case fullReplySent =>
     clear hte
     simp only [hst] at heq
-    have hf := connectionReset_frame c (decide (c.keepalive = KA.use ∧ ¬c.readClosed = true ∧ ¬c.discard = true))
-    have := connectionReset_rel c p (decide (c.keepalive = KA.use ∧ ¬c.readClosed = true ∧ ¬c.discard = true)) h hst hs hc
-      (by intro hh; simp at hh; simp [hh.2.2])
-    obtain ⟨rfl, rfl, rfl⟩ := heq
-    exact ⟨this, by rw [hf.1]; exact hs, by rw [hf.2]; exact hc⟩
+    split at heq
+    · -- interim (102) reply sent: back to HEADERS_PROCESSED
+      rename_i hint
+      have hinv : Inv c := by cases p <;> simp_all [Rel, respOrUpg]
+      simp only [Inv] at hinv
+      cases hr : c.response with
+      | none => simp [interimPending, hr] at hint
+      | some r =>
+        simp only [interimPending, hr] at hint
+        have haw : c.clientAware = true := by
+          cases hh : c.clientAware
+          · rcases hinv.2.2.2.2.2.2.2.2.2 hh with h0 | h0
+            · simp [hr] at h0
+            · rw [hr] at h0; simp [errResp] at h0; subst h0; simp at hint
+          · rfl
+        have hsw : c.stopWithError = false := by
+          cases hh : c.stopWithError
+          · rfl
+          · rcases hinv.2.2.2.2.2.2.2.2.1 hh with h0 | h0
+            · simp [hr] at h0
+            · rw [hr] at h0; simp [errResp] at h0; subst h0; simp at hint
+        simp only [dropResp, hr] at heq
+        obtain ⟨rfl, rfl, rfl⟩ := heq
+        refine ⟨?_, hs, hc⟩
+        cases p with
+        | req q =>
+          by_cases hf : r.freeCb = true <;>
+            simp_all [Rel, Inv, respOrUpg, stateSite]
+        | _ => simp_all [Rel, respOrUpg]
+    · have hf := connectionReset_frame c (decide (c.keepalive = KA.use ∧ ¬c.readClosed = true ∧ ¬c.discard = true))
+      have := connectionReset_rel c p (decide (c.keepalive = KA.use ∧ ¬c.readClosed = true ∧ ¬c.discard = true)) h hst hs hc
+        (by intro hh; simp at hh; simp [hh.2.2])
+      obtain ⟨rfl, rfl, rfl⟩ := heq
+      exact ⟨this, by rw [hf.1]; exact hs, by rw [hf.2]; exact hc⟩
   case fullReqReceived =>
     clear hte
     simp only [hst] at heq
@@ -427,7 +482,7 @@ theorem idleCase_eq {σ} (cfg : Cfg) (app : App σ) (env : IdleEnv) (hok : EnvOk
         rw [hp1]
         clear t4 t5 hce
         clear h
-        cases p1 <;> simp_all [Rel, Inv, stateSite] <;> grind
+        cases p1 <;> simp_all [Rel, Inv, respOrUpg, stateSite] <;> grind
   case bodyReceiving =>
     clear hte
     simp only [hst] at heq
@@ -448,7 +503,7 @@ theorem idleCase_eq {σ} (cfg : Cfg) (app : App σ) (env : IdleEnv) (hok : EnvOk
           rw [hp1]
           clear t4 hce
           clear h
-          cases p1 <;> simp_all [Rel, Inv, stateSite] <;> grind
+          cases p1 <;> simp_all [Rel, Inv, respOrUpg, stateSite] <;> grind
         · obtain ⟨rfl, rfl, rfl⟩ := heq
           exact ⟨by rw [hp1]; exact t1, t2, t3⟩
     · split at heq
@@ -461,7 +516,7 @@ theorem idleCase_eq {σ} (cfg : Cfg) (app : App σ) (env : IdleEnv) (hok : EnvOk
   case headersProcessed =>
     clear hte
     simp only [hst] at heq
-    have hinv : Inv c := by cases p <;> simp_all [Rel]
+    have hinv : Inv c := by cases p <;> simp_all [Rel, respOrUpg]
     have hr0 : c.response = none := by
       simp only [Inv] at hinv
       cases hq : c.response <;> simp_all
@@ -489,14 +544,14 @@ theorem idleCase_eq {σ} (cfg : Cfg) (app : App σ) (env : IdleEnv) (hok : EnvOk
           refine ⟨?_, t2, t3⟩
           rw [hp1]
           clear t4 hce
-          simp_all [Rel, Inv, stateSite]
+          simp_all [Rel, Inv, respOrUpg, stateSite]
         · obtain ⟨rfl, rfl, rfl⟩ := heq
           refine ⟨?_, ?_, ?_⟩
           · rw [hp1]
             clear t4 hce
             simp only [hr1, Option.isSome_none, Bool.false_eq_true, false_and, if_false]
             by_cases hrem : c1.remaining = 0 <;> simp only [hrem, if_true, if_false] <;>
-              simp_all [Rel, Inv, stateSite]
+              simp_all [Rel, Inv, respOrUpg, stateSite]
           · simp only [hr1, Option.isSome_none, Bool.false_eq_true, false_and, if_false]; exact t2
           · simp only [hr1, Option.isSome_none, Bool.false_eq_true, false_and, if_false]; exact t3
 
